@@ -1,6 +1,6 @@
 (* C06: observations of the real application at ABCI level, correspondence of the site models with
    what the real begin/end-blockers did, and the decidable spec checker applied to the REAL observations. *)
-From Sekai Require Import Base.Prelude Base.Dec Model.Halt.
+From Sekai Require Import Base.Prelude Base.Dec Model.Halt Gen.PanicSites.
 
 (* result of one ABCI phase: completed, or a panic escaped (site = first sekai frame under the panic,
    cls = normalised message class) *)
@@ -24,7 +24,7 @@ Inductive c06_case :=
 Definition predicted (s : site) : option string :=   (* None = EndBlock completes; Some cls = panics with class *)
   let cls {A} (o : outcome A) := match o with Panic c => Some c | _ => None end in
   match s with
-  | SSpend now pools => cls (spend_endblock now pools)
+  | SSpend now pools => cls (spend_endblock spend_endblock_guarded now pools)   (* flag regenerated from the tree *)
   | SQuorum due q votes voters => if due then cls (process_quorum q votes voters) else None
   | SWithdraw due modbal poolbal amt nben =>
       if due then cls (apply_proposal (withdraw_handler nben amt) (modbal, poolbal)) else None
